@@ -58,32 +58,58 @@ Qed.
 Section Numbers.
 Variable sb : list byte -> Z.
 
+(* a superfluous leading zero: "0" followed by at least one more digit *)
+Definition leading_zero (ds : list byte) : bool :=
+  match ds with d0 :: _ :: _ => d0 =? 48 | _ => false end.
+
+Lemma lz_check ds : Forall (fun c => is_digit c = true) ds ->
+  (match ds with d0 :: d1 :: _ => (d0 =? 48) && is_digit d1 | _ => false end) = leading_zero ds.
+Proof.
+  intros H. destruct ds as [|d0 [|d1 r]]; try reflexivity. cbn.
+  inversion H as [|? ? _ H1]; subst. inversion H1 as [|? ? Hd _]; subst. rewrite Hd. apply andb_true_r.
+Qed.
+
+Lemma single_zero ds v : Forall (fun c => is_digit c = true) ds -> ds <> [] ->
+  leading_zero ds = false -> hd 0 ds = 48 -> digits_val ds 0 = (v, []) -> v = 0.
+Proof.
+  intros Hall Hne Hlz Hhd Hv. destruct ds as [|d0 [|d1 r]]; [congruence| |].
+  - cbn in Hhd. subst d0. cbn in Hv. inversion Hv. reflexivity.
+  - cbn in Hhd, Hlz. subst d0. discriminate.
+Qed.
+
 Lemma int_token_exact t ds :
   ds <> [] -> Forall (fun c => is_digit c = true) ds ->
   pb t = ds -> is_double t = false ->
   classify_number sb t =
     let v := digits_value ds in
-    if v <=? INT64_MAX then (if strict t && negb (v =? 0) && (hd 0 ds =? 48) then NumErr else NumVal (JInt v))
-    else if v <=? UINT64_MAX then (if strict t && (hd 0 ds =? 48) then NumErr else NumVal (JUint v))
+    if strict t && leading_zero ds then NumErr
+    else if v <=? INT64_MAX then NumVal (JInt v)
+    else if v <=? UINT64_MAX then NumVal (JUint v)
     else if strict t then NumErr else NumVal (JUint UINT64_MAX).
 Proof.
   intros Hne Hall Hpb Hd. unfold classify_number, digits_value. rewrite Hpb, Hd. cbn [negb andb].
   destruct ds as [|c ds']; [congruence|].
   assert (Hc : is_digit c = true) by (inversion Hall; assumption).
   assert (Hc45 : (c =? 45) = false) by (unfold is_digit in Hc; lia).
-  rewrite Hc45. cbn [hd].
+  rewrite Hc45. rewrite (lz_check (c :: ds') Hall).
+  destruct (strict t && leading_zero (c :: ds')) eqn:ELZ; [reflexivity|].
   destruct (digits_val_all (c :: ds') Hall 0 ltac:(lia)) as (v & Hv & Hge). rewrite Hv. cbn [fst].
   pose proof (zlen_nonneg ds'). cbn [zlen].
   destruct (0 =? 1 + zlen ds') eqn:E0; [lia|]. clear E0.
   unfold INT64_MAX, UINT64_MAX in *.
+  (* the older test  v <> 0 /\ first = '0' /\ strict  is subsumed *)
+  assert (Hold : (negb (v =? 0) && (c =? 48) && strict t) = false).
+  { destruct (strict t) eqn:Es; [|apply andb_false_r]. cbn [andb] in ELZ.
+    destruct (c =? 48) eqn:E48; [|rewrite andb_false_r; reflexivity].
+    assert (v = 0).
+    { apply (single_zero (c :: ds') v Hall); [discriminate|exact ELZ|cbn; lia|exact Hv]. }
+    subst v. reflexivity. }
   destruct (v <=? 9223372036854775807) eqn:E1.
-  - destruct (v >? 18446744073709551615) eqn:E2; [lia|]. cbn [andb].
-    rewrite E1. destruct (strict t); cbn; destruct (v =? 0); cbn; destruct (c =? 48); reflexivity.
+  - destruct (v >? 18446744073709551615) eqn:E2; [lia|]. cbn [andb]. rewrite Hold, E1. reflexivity.
   - destruct (v <=? 18446744073709551615) eqn:E3.
-    + destruct (v >? 18446744073709551615) eqn:E2; [lia|]. cbn [andb]. rewrite E1.
-      destruct (v =? 0) eqn:E4; [lia|]. cbn [negb andb]. destruct (strict t); cbn; destruct (c =? 48); reflexivity.
+    + destruct (v >? 18446744073709551615) eqn:E2; [lia|]. cbn [andb]. rewrite Hold, E1. reflexivity.
     + destruct (v >? 18446744073709551615) eqn:E2; [|lia]. cbn [andb].
-      destruct (strict t); [reflexivity|]. cbn. destruct (c =? 48); reflexivity.
+      destruct (strict t) eqn:Es; [reflexivity|]. cbn [negb andb] in *. rewrite andb_false_r. cbn. reflexivity.
 Qed.
 
 Lemma neg_int_token_exact t ds :
@@ -91,11 +117,13 @@ Lemma neg_int_token_exact t ds :
   pb t = 45 :: ds -> is_double t = false ->
   classify_number sb t =
     let v := digits_value ds in
-    if v <=? 9223372036854775808 then NumVal (JInt (- v))
+    if strict t && leading_zero ds then NumErr
+    else if v <=? 9223372036854775808 then NumVal (JInt (- v))
     else if strict t then NumErr else NumVal (JInt INT64_MIN).
 Proof.
-  intros Hne Hall Hpb Hd. unfold classify_number, digits_value. rewrite Hpb, Hd. cbn [negb andb].
-  rewrite Z.eqb_refl.
+  intros Hne Hall Hpb Hd. unfold classify_number, digits_value. rewrite Hpb, Hd. cbn [negb andb tl].
+  rewrite Z.eqb_refl. rewrite (lz_check ds Hall).
+  destruct (strict t && leading_zero ds) eqn:ELZ; [reflexivity|].
   destruct (digits_val_all ds Hall 0 ltac:(lia)) as (v & Hv & Hge). rewrite Hv. cbn [fst].
   destruct ds as [|c ds']; [congruence|]. pose proof (zlen_nonneg ds'). cbn [zlen].
   destruct (0 =? 1 + zlen ds') eqn:E0; [lia|]. clear E0.
